@@ -365,6 +365,15 @@ impl Model {
             // ---------------- lists
             "LPUSH" | "RPUSH" => { if n < 3 { return Some(Exp::Err); } match d.map.get(&a[1]) { None => Exp::Is(R::Int((n - 2) as i64)), Some(Entry { val: Val::List(l), .. }) => Exp::Is(R::Int((l.len() + n - 2) as i64)), Some(_) => Exp::Err } }
             "LPOP" | "RPOP" => { if n != 2 { return None; } match d.map.get(&a[1]) { None => Exp::Is(R::Nil), Some(Entry { val: Val::List(l), .. }) => Exp::Is(bulk(if name == "LPOP" { l.front().unwrap() } else { l.back().unwrap() })), Some(_) => Exp::Err } }
+            // non-blocking evaluation of a blocking pop (data available, or inside MULTI/EXEC): first non-empty list wins
+            "BLPOP" | "BRPOP" => {
+                if n < 3 { return Some(Exp::Err); }
+                let mut out = None;
+                for k in &a[1..n - 1] {
+                    match d.map.get(k) { None => {}, Some(Entry { val: Val::List(l), .. }) => { if let Some(e) = if name == "BLPOP" { l.front() } else { l.back() } { out = Some(Exp::Is(R::Arr(vec![bulk(k), bulk(e)]))); break; } } Some(_) => return Some(Exp::Err) }
+                }
+                out.unwrap_or(Exp::AnyOf(vec![Exp::Is(R::NilArr), Exp::Is(R::Nil)]))
+            }
             "LLEN" => { if n != 2 { return Some(Exp::Err); } match d.map.get(&a[1]) { None => Exp::Is(R::Int(0)), Some(Entry { val: Val::List(l), .. }) => Exp::Is(R::Int(l.len() as i64)), Some(_) => Exp::Err } }
             "LRANGE" => {
                 if n != 4 { return Some(Exp::Err); }
@@ -620,6 +629,13 @@ impl Model {
             "LPOP" | "RPOP" => {
                 if let Some(Entry { val: Val::List(l), .. }) = self.dbs[db].map.get_mut(&a[1]) { if name == "LPOP" { l.pop_front(); } else { l.pop_back(); } }
                 self.drop_if_empty(db, &a[1]);
+            }
+            "BLPOP" | "BRPOP" => {
+                if let R::Arr(v) = actual { if let (Some(R::Bulk(k)), true) = (v.first(), v.len() == 2) {
+                    if let Some(Entry { val: Val::List(l), .. }) = self.dbs[db].map.get_mut(k) { if name == "BLPOP" { l.pop_front(); } else { l.pop_back(); } }
+                    let k = k.clone();
+                    self.drop_if_empty(db, &k);
+                } }
             }
             "LSET" => {
                 let i = strict_i64(&a[2]).unwrap();
